@@ -268,30 +268,37 @@ impl StorageTxn for Txn<'_> {
     // ---- methods outside the verifier's language subset (iterator chains with pattern closures): NOT verified;
     // ---- stand-ins assumed to satisfy the trait contract, listed in the evidence as out_of_reach
 
+//@watch C16 :: src/storage/inmemory.rs :: impl StorageTxn for Txn<'_> :: fn get_pending_tasks
     #[verifier::external_body]
     fn get_pending_tasks(&mut self) -> (r: Result<Vec<(Uuid, TaskMap)>>)
     { unimplemented!() }
 
+//@watch C16 :: src/storage/inmemory.rs :: impl StorageTxn for Txn<'_> :: fn all_tasks
     #[verifier::external_body]
     fn all_tasks(&mut self) -> (r: Result<Vec<(Uuid, TaskMap)>>)
     { unimplemented!() }
 
+//@watch C16 :: src/storage/inmemory.rs :: impl StorageTxn for Txn<'_> :: fn all_task_uuids
     #[verifier::external_body]
     fn all_task_uuids(&mut self) -> (r: Result<Vec<Uuid>>)
     { unimplemented!() }
 
+//@watch C16 :: src/storage/inmemory.rs :: impl StorageTxn for Txn<'_> :: fn get_task_operations
     #[verifier::external_body]
     fn get_task_operations(&mut self, uuid: Uuid) -> (r: Result<Vec<Operation>>)
     { unimplemented!() }
 
+//@watch C16 :: src/storage/inmemory.rs :: impl StorageTxn for Txn<'_> :: fn unsynced_operations
     #[verifier::external_body]
     fn unsynced_operations(&mut self) -> (r: Result<Vec<Operation>>)
     { unimplemented!() }
 
+//@watch C16 :: src/storage/inmemory.rs :: impl StorageTxn for Txn<'_> :: fn num_unsynced_operations
     #[verifier::external_body]
     fn num_unsynced_operations(&mut self) -> (r: Result<usize>)
     { unimplemented!() }
 
+//@watch C16 :: src/storage/inmemory.rs :: impl StorageTxn for Txn<'_> :: fn sync_complete
     #[verifier::external_body]
     fn sync_complete(&mut self) -> (r: Result<()>)
     { unimplemented!() }
